@@ -327,19 +327,18 @@ instant, and states C05/C06's expiry semantics in link terms: `heldFresh ⇒ tra
 the periodic purge — at most one cleanup period after the expiry — enters; K5's "one cleanup period of grace").  Hypotheses on
 the datagrams: `WFHistory` (C04's quantifier) and no cache-flush record on a browsed type name (`NoFlush`; pointer records are
 shared records). -/
-theorem C07_K5_from_C04 (tr : Trace) (endT : Int) (hle : ∀ e ∈ tr, e.t ≤ endT)
-    (hruns : ∀ x ∈ browses tr, Bridge.CacheRun tr endT x.1 x.2) :
+theorem C07_K5_from_C04 (tr : Trace) (endT : Int) (hruns : ∀ x ∈ browses tr, Bridge.CacheRun tr endT x.1 x.2) :
     K5 Cfg.paper tr endT = true :=
-  Bridge.K5_of_cacheRuns tr endT hle hruns
+  Bridge.K5_of_cacheRuns tr endT hruns
 
 /-- **the `cache` clause of `Bridge.CacheRun` from finer hypotheses** (`Bridge.CacheRunFine`): the PTRs the link trace shows the
 host processing are, instant by instant, the datagrams of the history that carry a copy of the pointer record (`Bridge.scan`); at
 most one copy per datagram; the history is sorted in time; and **the periodic purge runs** — after any instant `x ≥ tb` there is a
 purge within one cleanup period.  The last one is the liveness K5's grace clause needs and the cache model does not state (a
 history without purges is a history of the model); the purge at the browser's creation covers expiries before it. -/
-theorem C07_K5_cache_clause (tr : Trace) (endT : Int) (tb : Int) (b : Br) (h : Bridge.CacheRunFine tr endT tb b) :
-    Bridge.CacheRun tr endT tb b :=
-  Bridge.CacheRun_of_fine tr endT tb b h
+theorem C07_K5_cache_clause (tr : Trace) (endT : Int) (hle : ∀ e ∈ tr, e.t ≤ endT) (tb : Int) (b : Br)
+    (h : Bridge.CacheRunFine tr endT tb b) : Bridge.CacheRun tr endT tb b :=
+  Bridge.CacheRun_of_fine tr endT hle tb b h
 
 /-- `Bridge.track` / `Bridge.scan` at work: a pointer record with TTL 120 s (stored with the 1125 s floor) learned at 1 s is held;
 a purge after its expiry, or a goodbye, ends its life; a purge before the expiry does not -/
@@ -405,7 +404,7 @@ theorem C07_convergence_from_models_partial (lower : String → String) :
   exact C07_convergence_partial tr endT
     ⟨hc.wf, Bridge.K1_of_hosts lower tr endT hc.hosts, Bridge.K2_of_generated lower tr endT hg,
      Bridge.K3_of_browsers tr endT hc.browsers, Bridge.K4_of_responders lower tr endT hc.responders,
-     Bridge.K5_of_cacheRuns tr endT (wf_of hc.wf).le_end hc.caches,
+     Bridge.K5_of_cacheRuns tr endT hc.caches,
      Bridge.K6_of_generated lower tr (Bridge.Generated_K6 lower tr endT hg), hc.k7, hc.k3b⟩
 
 /-- non-vacuity of the bridge: C08's example history (register, three announcements, a pointer answer queued in the protected
